@@ -1,6 +1,7 @@
 """C05 - decoding an encoding gives back the same value (library round trip)."""
 import ofcorpus
 import pipeline
+import swcorpus
 import vlib
 
 SUB, JUDGE = "roundtrip", "OFCodecTrace"
@@ -31,8 +32,16 @@ def transform(r):
 def run(ctx):
     fams = [f for f in ofcorpus.FAMILIES if f not in ("B", "T")]
     recs = ofcorpus.run_families(ctx, "C05", fams, sub=SUB, judge=JUDGE, transform=transform, constants="")
+    fam1 = dict(ctx.extra.get("families", {}))
+    # switch-originated kinds: decode the specification's frame through Parse, re-encode (OFParseTrace, predicate group C05)
+    srecs = swcorpus.run(ctx, "C05")
+    fam1.update({"sw-" + k: v for k, v in ctx.extra.get("families", {}).items()})
+    ctx.extra["families"] = fam1
+    ctx.extra["distinct_nontrivial"] = sum(fam1.values())
+    sviol, sknown = swcorpus.settle(ctx, "C05", srecs)
     viol, known = pipeline.settle(ctx, SUB, JUDGE, "", recs, sig=lambda r: "%s|%s|%s" % (r.get("pred", "?"), (r.get("detail") or {}).get("type"), (r.get("detail") or {}).get("where")),
                                   max_report=12)
+    viol, known = viol + sviol, known + [k for k in sknown if k not in known]
     return vlib.finish(
         ctx, "model_checking",
         "Four-phase machine built -> encoded -> decoded (with a sibling following) -> re-encoded executed on the real types for every "
@@ -43,7 +52,8 @@ def run(ctx):
         viol, known,
         ["note actions carry no length of their own: only notes of length 6 mod 8 are in the round-trip domain",
          "NXM_OF_ARP_SPA/TPA and ACTSET_OUTPUT match fields have no decoder and are excluded (not two-way kinds)",
-         "switch-originated kinds (stats records, packet-in, features reply, port status) are covered by the C04 corpus"], exhaustive=False)
+         "switch-originated kinds (stats records, packet-in, features reply, port status, ...) are taken from the OFSwGen.tla corpus: "
+         "specification-made frame -> Parse -> re-encode must reproduce the frame"], exhaustive=False)
 
 
 def replay(ctx, obj):
